@@ -35,6 +35,9 @@ def run(ctx):
     from .c06 import _Remap
     ctx.guarded("R13.5", "server", lambda: read_side_interest(ctx, "R13.5"))
     ctx.guarded("R13.5", "read-switch", lambda: switch_conditions(_Remap(ctx, "R13.5"), which=("read",)))
+    ctx.rule("R13.9", "a queued Continue leaves through the one writer: try_write takes the head of the queue, serialises it and writes it, whatever its status or version (= C06 R06.1) -- a step in front of the writer that drops interim responses for some peers leaves the client waiting")
+    from .c06 import paths as _writer_paths
+    ctx.guarded("R13.9", "writer", lambda: _writer_paths(ctx, "R13.9", only={"R06.1"}))
     ctx.rule("R13.8", "once the interim response has been written the connection listens again: write() returns to AwaitingIncoming exactly when nothing is pending and becomes Closed only when the write failed (= C08 R08.3), so the body the client was asked for can still arrive")
     ctx.guarded("R13.8", "write-switch", lambda: switch_conditions(_Remap(ctx, "R13.8"), which=("write",)))
     ctx.rule("R13.6", "\"asked for\" in any header-name case and with surrounding whitespace: the Expect arm is selected by the lower-cased, trimmed name compared against the lower-cased Header::raw table (= C15 R15.1)")
